@@ -35,6 +35,9 @@ pub struct ChannelQueue {
   receive_waiters: VecDeque<Ref<ChannelWaiter>>,
 }
 
+/// The most slots a new buffered queue reserves before any value is sent
+const MAX_PREALLOCATED_SLOTS: usize = 1024;
+
 impl ChannelQueue {
   /// Create a synchronous channel queue
   /// that is immediately ready
@@ -56,7 +59,9 @@ impl ChannelQueue {
     assert!(capacity > 0, "ChannelQueue must be positive");
 
     Self {
-      queue: VecDeque::with_capacity(capacity),
+      // the capacity is a limit a script chooses freely, chan(1e18) is a channel that never
+      // fills up, not a request for that much memory up front
+      queue: VecDeque::with_capacity(capacity.min(MAX_PREALLOCATED_SLOTS)),
       capacity,
       state: ChannelQueueState::Ready,
       kind: ChannelQueueKind::Buffered,
